@@ -66,7 +66,7 @@ def gen_cases(rng, tier):
                 else:
                     fr.append([fw[a][k] + rng.randint(-40, 40) for k in range(3)])
             coords.append(fr)
-        cases.append({'flip': rng.random() < 0.5, 'm': m, 'rot': rng.random() < 0.3, 'rseed': rng.randrange(10**6), 'species': species, 'sites8': [list(p) for p in pts],
+        cases.append({'flip': rng.random() < 0.5, 'site_scale': rng.choice([1.0, 1.0, 0.97, 1.04]), 'm': m, 'rot': rng.random() < 0.3, 'rseed': rng.randrange(10**6), 'species': species, 'sites8': [list(p) for p in pts],
                       'labels': labels, 'coords': coords, 'max_dist': rng.choice([2.0, 3.5, 5.0]), 'res': rng.choice([0.5, 0.25, 0.7]),
                       'radius': rng.choice([0.5, 0.8])})
     return cases
@@ -79,7 +79,10 @@ def impl(case):
     c = np.array(case['coords'], dtype=float) / DEN
     traj = synth.make_traj(case['m'], case['species'], c, rot=rot)
     lat = traj.get_lattice()
-    sites = Structure(lattice=lat, species=['Li'] * len(case['sites8']), coords=np.array(case['sites8'], dtype=float) / 8, labels=case['labels'])
+    # the site structure may come in a slightly different cell than the simulation (same fractional coordinates)
+    from pymatgen.core import Lattice
+    slat = lat if case.get('site_scale', 1.0) == 1.0 else Lattice(np.array(lat.matrix) * case['site_scale'])
+    sites = Structure(lattice=slat, species=['Li'] * len(case['sites8']), coords=np.array(case['sites8'], dtype=float) / 8, labels=case['labels'])
     try:
         tr = traj.transitions_between_sites(sites, 'Li', site_radius=case['radius'])
     except ValueError as e:
